@@ -46,7 +46,7 @@ PLAN = {
             "trusted_extra": ["net/http, encoding/gob, reflect and the FNV fingerprint of a type are trusted; the fingerprint is an arbitrary function in the theorems"]},
     "C15": {"runs": [eng("inval", "c15", 300, 6000)]},
     "C17": {"runs": [eng("inval", "c17", 90, 900)]},
-    "C07": {"runs": [seq("c07", 240, 6000)],
+    "C07": {"runs": [seq("c07", 240, 6000), seq("c11", 120, 1500)],
             "explanation": "refinement of the slot-keyed store to a plain map with per-entry expiry, for every hash function and every op sequence"},
     "C09": {"runs": [seq("c09", 200, 4000), eng("fo", "c04", 150, 3000), eng("inval", "c15", 100, 1000)]},
     "C10": {"runs": [seq("c10", 200, 5000), eng("fo", "c06", 120, 2000), seq("c11", 120, 1500)],
